@@ -196,7 +196,8 @@ def make_case(r, mode, work, idx, tier):
             vs = cand + [v for v in vs if not any(x['start'] <= v['end'] and v['start'] <= x['end'] for x in cand)]
         asr = []
         if mode == 'as':
-            asr = cvgen.as_records(r, ref, t, n=r.choice([1, 1, 2]), min_tx_pos=(t.cds_start + 3) if t.coding else 3)
+            asr = cvgen.as_records(r, ref, t, n=r.choice([1, 1, 2]), min_tx_pos=(t.cds_start + 3) if t.coding else 3,
+                                   nested_p=0.6 if os.environ.get('VERIF_NESTED') == '1' else 0.0)
             vs = vs[:r.randrange(0, 4)]
             as_lines += asr
         if vs or asr:
@@ -207,7 +208,8 @@ def make_case(r, mode, work, idx, tier):
                 recs.append(cvgen.var_record(a['var']))
                 m = a['meta']
                 as_meta.append(dict(idx=len(recs), kind=m['kind'], start=m['start'], end=m['end'], dstart=m['dstart'], dend=m['dend'],
-                                    ref=m['ref']))
+                                    ref=m['ref'], nested=m.get('nested', [])))
+                allv += a.get('nested_gvf', [])
             tr = dict(tx=cvgen.tx_record(ref, t), vars=recs)
             tr['as'] = as_meta
             if as_meta:
@@ -317,7 +319,7 @@ def classify(it, verdicts):
     """-> (kind, missing, extra) with kind in ok/context/lookbehind/diff/badcase"""
     for v in verdicts:
         kind, missing, extra = parse_sets(v)
-        if kind in ('context', 'diff'):
+        if kind in ('context', 'diff', 'sibling'):
             rule = it['cfg']['rule']
             if kind == 'diff' and rule in LOOKBEHIND:
                 kind = 'lookbehind'
@@ -373,6 +375,9 @@ def oracle_check(rep, tier, which):
                 f"(mode {it['mode']}, rule {it['cfg']['rule']}, exception '{it['cfg']['exc']}')")
         if kind in ('context', 'lookbehind', 'collapse_naa1'):
             rep.violation(known_key(it, kind), what, replay_obj(it, obs, missing, extra))
+        elif kind == 'sibling':
+            rep.violation('nested_variant_site_borrowed', what + ' - every one is cut at (or spans) a cleavage site that exists only in a '
+                          'sibling form of an alternative-splicing record with nested variants', replay_obj(it, obs, missing, extra))
         else:
             rep.violation(f"oracle:{key}", what, replay_obj(it, obs, missing, extra))
     rep.part('oracle', by_mode_and_verdict={f'{m}:{k}': v for (m, k), v in sorted(stats.items())})
@@ -652,6 +657,9 @@ def check_c03(tier):
                 elif cls == 'names_overlapping':
                     rep.violation('header_names_overlapping_variants', f"header entries {labels[:4]} name variants whose reference spans "
                                   f"overlap; a compatible subset of them produces the peptide", ro)
+                elif cls == 'nested_as':
+                    rep.violation('header_of_nested_as_variant', f"header entries {labels[:4]} involve an alternative-splicing record with "
+                                  f"nested variants and are not witnesses", ro)
                 elif cls == 'names_unused_partner':
                     rep.violation('header_names_unused_adjacent_partner', f"header entries {labels[:4]} also name the upstream member of "
                                   f"a merged adjacent pair that the peptide does not carry", ro)
